@@ -295,6 +295,7 @@ func init() {
 			// concatenated without separators (a cache keyed that way returns the previous call's code)
 			c01ShiftHistory(c)
 			c01NeighbourHistory(c)
+			c01CounterWalk(c)
 			// hooked: key and message actually fed to the HMAC
 			if hooks.Available() {
 				checkHMACInputsHOTP(c)
@@ -380,6 +381,20 @@ func c01NeighbourHistory(c *Ctx) {
 				call(v)
 			}
 			call(keys[0])
+		}
+	}
+}
+
+// c01CounterWalk: one key and parameter set along a walk over adjacent counters (see stepWalkOffsets).
+func c01CounterWalk(c *Ctx) {
+	rng := c.RNG.Fork(113)
+	for w := 0; w < c.N(10, 120); w++ {
+		base := gen.Pick(rng, []uint64{1000, 1 << 31, 1 << 32, 1 << 63, 1<<64 - 300, uint64(1000 + rng.Intn(1<<30))})
+		key := rng.Bytes(20)
+		d, a := uint8(1+rng.Intn(10)), uint8(rng.Intn(3))
+		for _, off := range stepWalkOffsets(rng, c.N(300, 1200)) {
+			judgeHOTP(c, hotpCase{KeyHex: hexs(key), Secret: ref.Base32EncodeNoPad(key), Counter: base + uint64(off), Digits: d, Algo: a})
+			c.R.Count("adjacent_counter_walk_calls", 1)
 		}
 	}
 }
